@@ -384,6 +384,37 @@ def build_jobs(ctx, thorough):
     return jobs
 
 
+def second_session(ctx):
+    """an application that restarts the client (shutdown(), then init() on the same object) keeps the subscription it made on the
+    AirTouch object itself: a console version report of the new session that changes what the object shows is heard"""
+    import apigen4
+    import apigen5
+    for gen in (4, 5):
+        inst = C.installs(gen)[1]
+        hs = C.handshake(gen, inst)
+        ver = (lambda u, v: apigen4.m_version(u, v)) if gen == 4 else (lambda u, v: apigen5.console_version(1 if u else 0, v))
+        for resub in (False, True):
+            ops = list(hs) + ["sub at s1", "view", ver(True, ["2.0"]), "view", "shutdown"] + (["sub at s1"] if resub else []) + list(hs) + ["view", ver(False, ["3.1", "3.2"]), "view"]
+            out = c10.run_real(gen, ops)
+            ctx.case(("second-session", gen, resub))
+            first = len(hs) + 2
+            second = len(ops) - 2
+            if not any("RESULT init True" in x for o in out[:len(hs)] for x in o):
+                ctx.tie_broken("C12:console-script", "the scripted console no longer initialises the AirTouch %d object" % gen)
+                continue
+            for idx, which in ((first, "first"), (second, "second")):
+                before = next((x for x in out[idx - 1] if x.startswith("VIEW ")), None)
+                after = next((x for x in out[idx + 1] if x.startswith("VIEW ")), None)
+                heard = [x for x in out[idx] if x.startswith("NOTIFY at")]
+                ctx.count("second-session:%s:%s" % (which, "heard" if heard else "silent"))
+                if before != after and not heard:
+                    ctx.violation("C12:%d:second-session" % gen, "AirTouch %d: the subscriber of the AirTouch object (subscribed in the first session%s) was not invoked by the %s "
+                                  "session's console version report `%s` although update_available / console_versions changed" % (
+                                      gen, ", subscribed again after shutdown()" if resub else ", never unsubscribed", which, ops[idx]), kind="history",
+                                  scenario=ops, implementation_output=out[idx], spec_verdict="NOTIFY at")
+                    break
+
+
 def run(ctx, deep=False):
     thorough = deep or ctx.tier == "thorough"
     ctx.coverage["rule"] = RULE
@@ -423,6 +454,7 @@ def run(ctx, deep=False):
         gen, label, ops, base = jobs[0]
         ctx.sample({"script": label, "gen": gen, "ops": ops[base:base + 10]})
     two_objects(ctx, thorough)
+    second_session(ctx)
     c10.tie(ctx, "C12", 400 if thorough else 40, first=5)
 
 
